@@ -371,47 +371,47 @@ macro_rules! macs {
 }
 
 // ---- quick tier: every single handled CID, LinkADR blocks of 1..3, in one dynamic and one fixed region
-//@h id=macs_r0_linkadr1 props=C04,C08,C09 tier=quick build=dev-eu868 cost=60 timeout=1200
+//@h id=macs_r0_linkadr1 props=C04,C08,C09 tier=quick build=dev-eu868 tbuilds=dev-eu433,dev-in865,dev-as923 cost=60 timeout=1200
 //@bounds EU868; arbitrary plan state under I-dyn, arbitrary configuration under I-dr; LinkADRReq with all 2^32 payloads (every DR, TXPower, ChMask, ChMaskCntl, NbTrans)
 //@encodes Session::handle_downlink_macs, region channel_mask_update/validate/set, get_datarate, check_tx_power, Uplink::add_mac_command, MacCommands iterator, LinkADRAnsCreator
 macs!(macs_r0_linkadr1, 0, [0x03]);
-//@h id=macs_r0_linkadr2 props=C04,C08,C09 tier=quick build=dev-eu868 cost=90 timeout=1200
+//@h id=macs_r0_linkadr2 props=C04,C08,C09 tier=quick build=dev-eu868 tbuilds=dev-eu433,dev-in865,dev-as923 cost=90 timeout=1200
 //@bounds EU868; block of two LinkADRReq, all 2^64 payloads
 macs!(macs_r0_linkadr2, 0, [0x03, 0x03]);
 //@h id=macs_r0_linkadr3 props=C04,C08,C09 tier=thorough build=dev-eu868 cost=150 timeout=2400
 //@bounds EU868; block of three LinkADRReq, all payloads
 macs!(macs_r0_linkadr3, 0, [0x03, 0x03, 0x03]);
-//@h id=macs_r0_rxparam props=C04,C08,C10 tier=quick build=dev-eu868 cost=40 timeout=1200
+//@h id=macs_r0_rxparam props=C04,C08,C10 tier=quick build=dev-eu868 tbuilds=dev-eu433,dev-in865,dev-as923 cost=40 timeout=1200
 //@bounds EU868; RXParamSetupReq, all 2^32 payloads
 macs!(macs_r0_rxparam, 0, [0x05]);
 //@h id=macs_r0_devstatus props=C04,C08 tier=quick build=dev-eu868 cost=20 timeout=1200
 //@bounds EU868; DevStatusReq, every SNR
 macs!(macs_r0_devstatus, 0, [0x06]);
-//@h id=macs_r0_newchannel props=C04,C08,C09 tier=quick build=dev-eu868 cost=60 timeout=1200
+//@h id=macs_r0_newchannel props=C04,C08,C09 tier=quick build=dev-eu868 tbuilds=dev-eu433,dev-in865,dev-as923 cost=60 timeout=1200
 //@bounds EU868; NewChannelReq, all 2^40 payloads (every index, frequency, DataRateRange)
 macs!(macs_r0_newchannel, 0, [0x07]);
-//@h id=macs_r0_rxtiming props=C04,C08,C10 tier=quick build=dev-eu868 cost=20 timeout=1200
+//@h id=macs_r0_rxtiming props=C04,C08,C10 tier=quick build=dev-eu868 tbuilds=dev-eu433,dev-in865,dev-as923 cost=20 timeout=1200
 //@bounds EU868; RXTimingSetupReq, every delay byte
 macs!(macs_r0_rxtiming, 0, [0x08]);
-//@h id=macs_r0_dlchannel props=C04,C08,C10 tier=quick build=dev-eu868 cost=60 timeout=1200
+//@h id=macs_r0_dlchannel props=C04,C08,C10 tier=quick build=dev-eu868 tbuilds=dev-eu433,dev-in865,dev-as923 cost=60 timeout=1200
 //@bounds EU868; DlChannelReq, all 2^32 payloads
 macs!(macs_r0_dlchannel, 0, [0x0A]);
 //@h id=macs_r0_ignored props=C04,C08 tier=quick build=dev-eu868 cost=40 timeout=1200
 //@bounds EU868; LinkCheckAns, DutyCycleReq, TXParamSetupReq, DeviceTimeAns in one stream, all payloads: no effect, no answer
 macs!(macs_r0_ignored, 0, [0x02, 0x04, 0x09, 0x0D]);
-//@h id=macs_r0_mixed props=C04,C08 tier=quick build=dev-eu868 cost=120 timeout=1800
+//@h id=macs_r0_mixed props=C04,C08 tier=quick build=dev-eu868 tbuilds=dev-eu433,dev-in865,dev-as923 cost=120 timeout=1800
 //@bounds EU868; LinkADRReq + RXParamSetupReq + RXTimingSetupReq + DevStatusReq in one frame (order of answers, interleaving), all payloads
 macs!(macs_r0_mixed, 0, [0x03, 0x05, 0x08, 0x06]);
 
-//@h id=macs_us_linkadr1 props=C04,C08,C09 tier=quick build=dev-us915 cost=90 timeout=1200
+//@h id=macs_us_linkadr1 props=C04,C08,C09 tier=quick build=dev-us915 tbuilds=dev-au915 cost=90 timeout=1200
 //@bounds US915; arbitrary 72-channel mask and join bookkeeping under I-fix; LinkADRReq, all payloads
 macs!(macs_us_linkadr1, 0, [0x03]);
-//@h id=macs_us_linkadr2 props=C04,C08,C09 tier=quick build=dev-us915 cost=120 timeout=1800
+//@h id=macs_us_linkadr2 props=C04,C08,C09 tier=quick build=dev-us915 tbuilds=dev-au915 cost=120 timeout=1800
 //@bounds US915; block of two LinkADRReq, all payloads
 macs!(macs_us_linkadr2, 0, [0x03, 0x03]);
-//@h id=macs_us_rxparam props=C04,C08,C10 tier=quick build=dev-us915 cost=40 timeout=1200
+//@h id=macs_us_rxparam props=C04,C08,C10 tier=quick build=dev-us915 tbuilds=dev-au915 cost=40 timeout=1200
 //@bounds US915; RXParamSetupReq, all payloads
 macs!(macs_us_rxparam, 0, [0x05]);
-//@h id=macs_us_chan_ignored props=C04,C08 tier=quick build=dev-us915 cost=40 timeout=1200
+//@h id=macs_us_chan_ignored props=C04,C08 tier=quick build=dev-us915 tbuilds=dev-au915 cost=40 timeout=1200
 //@bounds US915; NewChannelReq + DlChannelReq (ignored by fixed plans) + RXTimingSetupReq + DevStatusReq, all payloads
 macs!(macs_us_chan_ignored, 0, [0x07, 0x0A, 0x08, 0x06]);
